@@ -536,6 +536,9 @@ def sess_c07(seed, profile='kern_only', mixed=False, sigs=False, hidden=False):
     if mixed:
         over.update(kern_only=False, first_kern=1.0, nonkern_sigs=0.15 if sigs else 0)
     r, lines, types = make_doc(seed, profile, **over)
+    if seed % 7 == 6 and not sigs:
+        # a score without any clef, key or time signature (a range export has nothing to restate)
+        lines = [e for e in lines if not (e['ev'] == 'row' and any(c['k'] in gen.SIGKINDS for c in e['cells']))]
     evs, doc, text = session.record_import(lines)
     if doc is not None:
         ts = ['**kern'] if mixed else None
